@@ -5,6 +5,8 @@ Executable field models: the generated f64 kernels packaged as `FieldOps`, the g
 Core Lean only.
 -/
 import Wf.Gen.F64
+import Wf.Gen.F62
+import Wf.Gen.F128
 namespace Wf
 
 /-- `FieldElement::exp_vartime` (LSB-first square-and-multiply); `bits` bounds the loop. -/
@@ -32,6 +34,20 @@ def f64ExpLoop {F} (ops : FieldOps F) (x : F) (power : Nat) : F :=
       let r := if (power / 2 ^ i) % 2 = 1 then ops.mul r x else r
       go i r
   go 64 ops.one
+
+/-- integers modulo `p` with every operation followed by `% p` (value-level arithmetic) -/
+def natOps (p : Nat) : FieldOps Nat where
+  zero := 0
+  one := 1 % p
+  add := fun a b => (a + b) % p
+  sub := fun a b => (a + (p - b % p)) % p
+  mul := fun a b => a * b % p
+  neg := fun a => (p - a % p) % p
+  double := fun a => (a + a) % p
+  square := fun a => a * a % p
+  inv := fun a => a          -- not used by the formulas evaluated at this instance
+  ofNat := fun n => n % p
+  beq := fun a b => a % p == b % p
 
 namespace F64
 open Wf.Gen.F64
@@ -102,6 +118,55 @@ def cubeOps {F} (ops : FieldOps F) (mulF : (F × F × F) → (F × F × F) → (
   ofNat := fun n => (ops.ofNat n, ops.zero, ops.zero)
   conjugate := frobF
   beq := fun a b => ops.beq a.1 b.1 && ops.beq a.2.1 b.2.1 && ops.beq a.2.2 b.2.2
+
+/-- x^n by square-and-multiply with the field's own multiplication (used for Fermat inversion in
+    the value-level models of f62 / f128, whose binary-GCD `inv` is not translated) -/
+def powBy {F} (mulF : F → F → F) (one : F) (x : F) (n : Nat) : F :=
+  let rec go (fuel : Nat) (r b : F) (n : Nat) : F :=
+    match fuel with
+    | 0 => r
+    | fuel + 1 => if n = 0 then r else go fuel (if n % 2 = 1 then mulF r b else r) (mulF b b) (n / 2)
+  go 130 one x n
+
+namespace F62
+open Wf.Gen.F62
+def zero : BitVec 64 := Wf.Gen.F62.new 0#64
+def one : BitVec 64 := Wf.Gen.F62.new 1#64
+def baseOps : FieldOps (BitVec 64) where
+  zero := zero
+  one := one
+  add := add
+  sub := sub
+  mul := mul
+  neg := fun x => sub 0#64 x
+  double := double
+  square := fun x => mul x x
+  inv := fun x => powBy mul one x (M.toNat - 2)
+  ofNat := fun n => Wf.Gen.F62.new (BitVec.ofNat 64 n)
+  beq := fun a b => normalize a == normalize b
+def quad : FieldOps (BitVec 64 × BitVec 64) :=
+  quadOps baseOps (ext2Mul baseOps) (fun a => ext2Mul baseOps a a) (ext2Frobenius baseOps)
+def cube : FieldOps (BitVec 64 × BitVec 64 × BitVec 64) :=
+  cubeOps baseOps (ext3Mul baseOps) (fun a => ext3Mul baseOps a a) (ext3Frobenius baseOps)
+end F62
+
+namespace F128
+open Wf.Gen.F128
+def baseOps : FieldOps (BitVec 128) where
+  zero := 0#128
+  one := 1#128
+  add := add
+  sub := sub
+  mul := mul
+  neg := fun x => sub 0#128 x
+  double := fun x => add x x
+  square := fun x => mul x x
+  inv := fun x => powBy mul 1#128 x (M.toNat - 2)
+  ofNat := fun n => Wf.Gen.F128.new (BitVec.ofNat 128 n)
+  beq := fun a b => a == b
+def quad : FieldOps (BitVec 128 × BitVec 128) :=
+  quadOps baseOps (ext2Mul baseOps) (fun a => ext2Mul baseOps a a) (ext2Frobenius baseOps)
+end F128
 
 namespace F64
 open Wf.Gen.F64
